@@ -217,7 +217,7 @@ def run(ctx):
 
 MANIFEST = {
     "category": "other",
-    "technique": "MIR edge-guard / must-pass rules on the orderer + provenance of the operand compared with the SQL COUNT",
+    "technique": "MIR edge-guard / must-pass rules on the orderer + provenance of the operand compared with the SQL COUNT; re-queue guarded by in_queue == false; distinct-count idiom table (set, or sort + dedup)",
     "text": "Static, all paths: release only behind ready()==true, pending on the other edge, recursion over dependents; the length compared with COUNT(.. IN (..)) must come from a de-duplicated collection (set semantics of the dependency list). Necessary structural conditions; the SQL and liveness over all DAGs are not decided.",
     "note": "Trusted: rustc MIR, driver, rule engine; SQL `COUNT .. WHERE id IN` counts distinct matching rows (ids are unique in orderer_ready_v1).",
 }
